@@ -18,8 +18,10 @@ def run(ctx):
     ctx.tlc_must_hold(sc.SUB, "MC_StateJournal", cfg="MC_StateJournal_quick.cfg" if q else "MC_StateJournal_narrow6.cfg",
                       workers=4 if q else 8, timeout=900 if q else 3600, heap="4g" if q else "8g",
                       label="journal: exhaustive, 1 address x 2 keys x values {0,1}, 10 bases, deep")
-    if not q:
-        ctx.tlc_must_hold(sc.SUB, "MC_StateJournal", cfg="MC_StateJournal_thorough.cfg", workers=8, timeout=3600, heap="8g",
+    if not q and os.environ.get("VERIF_C06_DEEP"):
+        # optional (measured: 7.19 M distinct states, 21-24 min on the shared machine): the wide universe with <= 5 operations;
+        # by default the wide universe is covered up to 4 operations by the exporting config of step 2
+        ctx.tlc_must_hold(sc.SUB, "MC_StateJournal", cfg="MC_StateJournal_deep.cfg", workers=8, timeout=5400, heap="8g",
                           label="journal: exhaustive, 2 addresses x 2 keys x values {0,1,2}, 10 bases, <= 5 operations")
     ctx.tlc_must_hold(sc.SUB, "MC_Trie", cfg="MC_Trie_27_quick.cfg" if q else "MC_Trie_27_thorough.cfg", workers=4 if q else 8,
                       timeout=900 if q else 2400, heap="4g" if q else "8g", label="trie: 27 keys of 3 nibbles, bounded sequences")
@@ -33,7 +35,7 @@ def run(ctx):
     res = sc.replay_behaviours(ctx, binp, path, "exhaustive", roots, rstats)
     replay_demo(ctx, binp, path)
     path, n_sim, _ = sc.export_behaviours(ctx, "MC_StateJournal_sim.cfg", "walks", 900 if q else 3000,
-                                          simulate="num=%d" % (60 if q else 1500), depth=20)
+                                          simulate="num=%d" % (60 if q else 500), depth=20)
     sc.replay_behaviours(ctx, binp, path, "walks", roots, rstats)
     for line in open(path).readlines()[:1]:
         ctx.sample({"behaviour_from_TLC_replayed_on_real_state": sc.pretty(json.loads(line))})
@@ -44,7 +46,7 @@ def run(ctx):
 
     # 4. implementation -> model: seeded random histories over large universes, validated by Trace_StateJournal.tla
     demo_ok = sc.binding_demo(ctx, binp)
-    events, stats, how = sc.record(ctx, binp, 12 if q else 150, 500 if q else 700, "random")
+    events, stats, how = sc.record(ctx, binp, 12 if q else 60, 500 if q else 650, "random")
     accepted = 0
     if events is not None:
         accepted = sc.validate(ctx, events, stats, "random", how)
